@@ -104,13 +104,19 @@ def decision_table(ctx, fn, max_visits=1):
                     s = s[:260] + '…'
                 checks.append(s)
         out = outcome(kind, ret)
-        # ok_or / map_err guards show up as `?` operands that carry an Error variant
-        rows.append({'conds': conds, 'checks': checks, 'out': out})
+        effects = []
+        for e in p.events:
+            if e[0] == 'call' and e[1].startswith('ast::Scope::') and e[1].split('::')[-1] in SCOPE_EFFECTS:
+                effects.append('%s(%s)' % (e[1].split('::')[-1], ', '.join(S(a)[:80] for a in e[2][1:])))
+        rows.append({'conds': conds, 'checks': checks, 'effects': effects, 'out': out})
     return rows
 
 
+SCOPE_EFFECTS = ('push_scope', 'pop_scope', 'push_main_scope', 'pop_main_scope', 'insert_variable', 'insert_witness', 'insert_parameter', 'insert_alias', 'insert_function', 'track_call')
+
+
 def row_key(r):
-    return json.dumps([r['conds'], r['checks'], r['out']], ensure_ascii=False)
+    return json.dumps([r['conds'], r['checks'], r['out'], r.get('effects', [])], ensure_ascii=False)
 
 
 EXTRA = re.compile(r'^(value::UIntValue::parse_decimal|value::Value::(from_const_expr|is_of_type|parse_from_str)|types::AliasedType::(resolve|resolve_builtin)(::\{closure#\d+\})?|types::BuiltinAlias::resolve|types::UIntType::(from_bit_width|bit_width|byte_width)|num::(NonZero)?Pow2Usize::new|<num::U256 as std::str::FromStr>::from_str|TemplateProgram::(new|instantiate)|CompiledProgram::new)$')
@@ -172,10 +178,10 @@ def compare(ctx, rid, paths, table, what):
         ctx.ob(rid, 'table:' + path, not missing and not extra, '%s: %d decision rows equal the reviewed table' % (what, len(cur)), fn.where())
         for m in missing[:6]:
             ctx.ob(rid, 'row-missing:%s:%s' % (path, m[2]), False, 'reviewed decision row no longer present (check removed or changed)', fn.where(),
-                   'when [%s] after checks %s => %s' % (' & '.join(m[0]), m[1], m[2]))
+                   'when [%s] after checks %s with scope effects %s => %s' % (' & '.join(m[0]), m[1], m[3], m[2]))
         for m in extra[:6]:
             ctx.ob(rid, 'row-new:%s:%s' % (path, m[2]), False, 'decision row not in the reviewed table (new or weakened condition)', fn.where(),
-                   'when [%s] after checks %s => %s' % (' & '.join(m[0]), m[1], m[2]))
+                   'when [%s] after checks %s with scope effects %s => %s' % (' & '.join(m[0]), m[1], m[3], m[2]))
     return n
 
 
